@@ -368,6 +368,36 @@ def k_api(run, case):
     run.check(dev <= tol, "ape() on fresh objects == definition on the documented processing", case,
               "ape(%s; %s) deviates from the definition by %g (tol %g)" % (relation, {k: v for k, v in o.items() if v and v != -1}, dev, tol),
               key="api:not-definition")
+    if rng.random() < .35:
+        # the same reference object evaluated against a second estimate, possibly in another plane
+        # (one ground truth, several runs): evo either refuses (the object is already projected) or
+        # evaluates both trajectories in the requested plane
+        plane2 = ["xy", "xz", "yz"][rng.integers(3)]
+        est2 = gen.perturbed_estimate(rng, ref, hostile=False)
+        t_est2 = gen.make_evo(est2, m2, stamped, flavour=f2)
+        out2 = contracts.outcome_of(main_ape.ape, t_ref, t_est2, metrics.PoseRelation[relation],
+                                    project_to_plane=Plane(plane2))
+        run.hit("L2 ape(): reference object re-used for a second evaluation")
+        if out2[0] == "ok":
+            nd2 = {"xy": 2, "xz": 1, "yz": 0}[plane2]
+            v_r, v_e = gen.read_views(t_ref), gen.read_views(t_est2)
+            run.check(bool(np.all(v_r["p"][:, nd2] == 0)) and bool(np.all(v_e["p"][:, nd2] == 0)),
+                      "second evaluation with a re-used reference: both trajectories in the requested plane", case,
+                      "ape(project_to_plane=%s) after an evaluation with plane %s returned values although the re-used "
+                      "reference is not in the %s plane" % (plane2, plane, plane2), key="api:reused-reference-plane")
+            e2 = np.asarray(out2[1].np_arrays["error_array"], dtype=float)
+            R_r = np.array([rm.rot_from_quat_wxyz(q) for q in v_r["q"]])
+            R_e = np.array([rm.rot_from_quat_wxyz(q) for q in v_e["q"]])
+            want2 = rm.ape_definition(relation, R_r, v_r["p"], R_e, v_e["p"])
+            tol2 = tol_for(relation, v_r["p"], v_e["p"], rotation_defect(R_r, R_e))
+            run.check(e2.shape == want2.shape and float(np.max(np.abs(e2 - want2))) <= tol2,
+                      "second evaluation with a re-used reference == definition on the objects it returns", case,
+                      "values of the second evaluation deviate from the definition on the processed objects",
+                      key="api:reused-reference-values")
+        else:
+            from evo.core.trajectory import TrajectoryException
+            run.check(isinstance(out2[1], TrajectoryException), "a re-used, already projected reference is refused with evo's trajectory error",
+                      case, "second evaluation raised %r" % (out2[1], ), key="api:reused-reference-exception")
 
 
 # ------------------------------------------------------------------ L3 helpers (shared with C02/C12)
